@@ -546,7 +546,7 @@ func c17RangeExtra(c *Ctx, u *an.Unit, rs *ast.RangeStmt, cmpTotal map[string]bo
 				}
 				mname := u.C.Term(ix.X)
 				sorted := false
-				ast.Inspect(u.Body, func(m ast.Node) bool {
+				u.InspectAll(func(m ast.Node) bool {
 					sc, ok := m.(*ast.CallExpr)
 					if !ok || sc.Pos() < rs.End() || len(sc.Args) != 1 {
 						return true
